@@ -233,6 +233,7 @@ let step (ctx : ctx) (t : string array) : out =
             (Printf.sprintf "cuts n=%d ok=[%s] panic=[%s]" len
                (String.concat "," (List.rev !oks))
                (String.concat "," (List.rev !panics)))
+      | "CUTSAMPLE" -> Plain "UNMODELLED-LOAD"   (* sampled cuts of a large image: implementation + oracle only *)
       | "SCRIPT" ->
           let g, r = unwrap (op_deploy ctx.n_edges (get ctx t.(1)) (text_arg t.(2))) in
           Hashtbl.replace ctx.gs t.(1) g;
